@@ -617,7 +617,7 @@ pub fn run_c10(args: &Args) -> i32 {
     silence_panics();
     let mut positions = c10_positions(args.tier);
     if reduced() {
-        positions = positions.into_iter().step_by(5).collect();
+        positions = positions.into_iter().step_by(7).collect();
     }
     let mut total_runs = 0u64;
     let mut total_steps = 0u64;
